@@ -14,7 +14,8 @@ RULE = ("exhaustive: every string of length 0..L over a 2-3 letter alphabet hand
         "over amino-acid / small / Unicode alphabets, k=1..4, through nearest_neighbor and symdel. Oracle: own "
         "Wagner-Fischer DP over all ordered pairs, compared as multisets. Non-trivial: the true neighbour set "
         "contains an indel pair, or a distance-0 duplicate pair, or k>=2, or some string is shorter than k. "
-        "Distinct = distinct (engine, k, sequence list).")
+        "Distinct = distinct (engine, k, sequence list)."
+        " Also: dense collections (all single substitutions of 1-3 founders, distances known analytically) and alphabets whose letters differ in case, blanks or Unicode normalisation only.")
 ASSUMPTIONS = ["oracle DP cross-checked against the Levenshtein C library at start-up",
                "sequences are passed as Python lists here; other containers are C10's subject"]
 
@@ -56,6 +57,23 @@ def check(case, rec):
     same_multiset("neighbour-set", got, want, f"engine={case['engine']} k={k} n={len(seqs)}")
 
 
+def check_dense(case, rec):
+    """Dense repertoire: all single substitutions of 1-3 founders - hundreds of mutual neighbours, many exactly on the radius, spread
+    over many tree leaves / deletion buckets; distances known analytically (G.dense_collection)."""
+    k = case["k"]
+    seqs, meta = G.dense_collection(case["founders"], case.get("per_founder"), case.get("step", 1))
+    want = G.dense_neighbours(meta, k)
+    rec.note(case, True, [f"n={len(seqs)}", case["engine"], f"k={k}"])
+    got = trip(call("search", ENGINES[case["engine"]], list(seqs), max_edits=k))
+    same_multiset("dense-neighbour-set", got, want, f"engine={case['engine']} k={k} n={len(seqs)} (all substitutions of {case['founders']} founder(s))")
+
+
+def enum_dense(tier):
+    yield {"engine": "symdel", "founders": 3, "k": 2}
+    yield {"engine": "nearest_neighbor", "founders": 2, "k": 1}
+    yield {"engine": "symdel", "founders": 1, "k": 2}
+
+
 def check_planted(case, rec):
     """Thousands (thorough: tens of thousands) of sequences in one call; the oracle is exact by construction (G.planted_collection)."""
     n, k = case["n"], case["k"]
@@ -88,6 +106,7 @@ def enum_cases(tier):
     specs = [("AC", 6), ("ACD", 4)] if tier == "quick" else [("AC", 8), ("ACD", 6), ("ACDE", 4), ("A", 12)]
     if tier == "quick":
         specs.append(("A", 9))
+    specs.append(("Aa", 5 if tier == "quick" else 7))        # two letters that differ in case only
     for alpha, L in specs:
         for k in (1, 2, 3, 4):
             for dup in (False, True):
@@ -116,6 +135,7 @@ def random_case(draw, tier="quick"):
 SUBS = [
     Sub("exhaustive", check, enum=enum_cases),
     Sub("planted_large", check_planted, enum=enum_planted),
+    Sub("dense", check_dense, enum=enum_dense),
     Sub("random", check, strategy=lambda tier: random_case(tier), budget=(3000, 40000)),
 ]
 
